@@ -568,6 +568,9 @@ def _group_start(R, f, loop, value, cur_set, ae, pol=True):
         s0, rest = stmts[0], stmts[1:]
         if isinstance(s0, ast.If):
             v = truth(s0.test, st_)
+            if v is None and any((isinstance(x, ast.Attribute) and x.attr == 'parsable') or
+                                 (isinstance(x, ast.Constant) and not isinstance(x.value, bool) and x.value in (255, 256)) for x in ast.walk(s0.test)):
+                st_['range_tested'] = True       # a completed group may be withheld by the range test parsable applies (0..255)
             for outcome in ([v] if v is not None else [True, False]):
                 run((s0.body if outcome else s0.orelse) + rest, clone(st_), k)
             return
@@ -621,6 +624,8 @@ def _group_start(R, f, loop, value, cur_set, ae, pol=True):
                     continue
                 if isinstance(b_, ast.Constant):
                     val = b_.value
+                elif isinstance(b_, ast.Call) and call_name(b_) == 'AnsiSetting' and len(b_.args) == 1 and norm(b_.args[0]) == cur_set:
+                    val = 'GROUP'
                 elif isinstance(b_, ast.Name) and b_.id in st_['vars']:
                     val = st_['vars'][b_.id]
                 elif isinstance(b_, ast.Name) and b_.id == cnt:
@@ -665,7 +670,7 @@ def _group_start(R, f, loop, value, cur_set, ae, pol=True):
             return run(rest, st_, k)
         if isinstance(s0, ast.Expr) and isinstance(s0.value, ast.Call) and call_name(s0.value) in ('append', 'extend') and s0.value.args:
             at_ = names_in(s0.value.args[0])
-            if cur_set in at_:
+            if cur_set in at_ or any(st_['vars'].get(n_) == 'GROUP' for n_ in at_):
                 st_['flushed'] = True
             elif value in at_:
                 st_['emitted'] = True
@@ -683,7 +688,7 @@ def _group_start(R, f, loop, value, cur_set, ae, pol=True):
             for hs0 in (('E', 0), ('N', 1), ('N', 2), ('N', 'BIG')):
                 results.clear()
                 st0 = {'cs': hs0[0], 'cnt': hs0[1], 'ae': flag, 'vars': {}, 'consulted': False, 'stored_first': False, 'is_int': False, 'combo': None,
-                       'stored': False, 'flushed': False, 'emitted': False}
+                       'stored': False, 'flushed': False, 'emitted': False, 'range_tested': False}
                 run(list(loop.body), st0, lambda s_: results.append((s_, 'end')))
                 nonint.extend((flag, s_) for s_, _h in results)
         for flag in (False, True):
@@ -698,7 +703,7 @@ def _group_start(R, f, loop, value, cur_set, ae, pol=True):
                 seen.add(hs)
                 results.clear()
                 st0 = {'cs': hs[0], 'cnt': hs[1], 'ae': flag, 'vars': {}, 'consulted': False, 'stored_first': False, 'is_int': True, 'combo': None,
-                       'stored': False, 'flushed': False, 'emitted': False}
+                       'stored': False, 'flushed': False, 'emitted': False, 'range_tested': False}
                 run(list(loop.body), st0, lambda s_: results.append((s_, 'end')))
                 for s_, how in list(results):
                     if how == 'exit':
@@ -747,6 +752,10 @@ def _group_start(R, f, loop, value, cur_set, ae, pol=True):
     R.check(bad is None, f, loop, 'non-integer tokens contribute nothing', 'a non-integer token is kept although add_erroneous=False', construct='add_erroneous=False, non-int token')
     # ---- group length and completion
     probs = []
+
+    def withheld(fl, s_):
+        # while erroneous items are dropped, a completed group may be left out under the range test (and the accumulator cleared)
+        return (not fl) and s_['range_tested']
     for fl, hs, s_, how in facts:
         if not s_['stored']:
             continue
@@ -757,11 +766,13 @@ def _group_start(R, f, loop, value, cur_set, ae, pol=True):
                     probs.append('after the first code of a matched colour function the group is %s with %s codes left: the expected length is not the function\'s total length'
                                  % ('pending' if s_['cs'] == 'N' else 'closed', s_['cnt']))
             else:
-                if s_['cs'] != 'E' or not s_['flushed']:
+                if s_['cs'] != 'E' or not (s_['flushed'] or withheld(fl, s_)):
                     probs.append('a plain code does not form a group of its own (%s codes left after it): the following codes are swallowed into its group' % (s_['cnt'],))
         else:
-            if hs[1] == 1 and (s_['cs'] != 'E' or not s_['flushed']):
+            if hs[1] == 1 and (s_['cs'] != 'E' or not (s_['flushed'] or withheld(fl, s_))):
                 probs.append('the last code of a group does not complete it')
+        if s_['range_tested'] and fl and s_['cs'] == 'E' and not s_['flushed'] and (hs[1] == 1 or hs[0] == 'E'):
+            probs.append('a completed group can be withheld by the range test although erroneous items are to be kept')
             if hs[1] in (2, 'BIG') and s_['cs'] == 'E' and hs[1] == 2:
                 probs.append('a group is emitted while a code is still missing')
         if s_['flushed'] and s_['cs'] != 'E':
